@@ -42,3 +42,16 @@ Theorem C06_restarted_since_arm : forall s e,
   end.
 Proof. exact rsa_meaning. Qed.
 Print Assumptions C06_restarted_since_arm.
+
+(* Second tie (DESIGN 3.5, docs/gotrans.md): Arm / Disarm / Check of WALResetWatch as translated from
+   db/wal_reset_watch.go on this run are the hand model's arm / disarmed / check (salts as numbers,
+   Salt.Equal as equality; rep = the Go-side struct of a model watch). *)
+From Coq Require Import ZArith.
+From RQ Require Import Gen.WalResetWatch Proofs.C06_Gen.
+Theorem C06_source_derived_eq :
+  (forall w s r, WALResetWatch_Arm N (rep w) s (Z.of_nat r) = rep (arm s r)) /\
+  (forall w, WALResetWatch_Disarm N 0%N (rep w) = rep disarmed) /\
+  (forall w cur, WALResetWatch_Check N 0%N N.eqb (rep w) cur
+     = (rep (snd (check w cur)), Z.of_nat (fst (fst (check w cur))), snd (fst (check w cur)))).
+Proof. exact gen_watch_eq. Qed.
+Print Assumptions C06_source_derived_eq.
